@@ -464,6 +464,24 @@ Definition step (s : state) (o : op) : state * out :=
   | Handle name h => handle_step s name h
   end.
 
+(* the forwarding table of the handle: the database operation a handle operation stands for (None: len / iteration / all,
+   which filter the stored rows themselves) *)
+Definition restrict (name : str) (h : hop) : option op :=
+  match h with
+  | HContains q => Some (Contains q (Some name)) | HCount q => Some (Count q (Some name))
+  | HGet q => Some (Get q (Some name)) | HSearch q srt => Some (Search q (Some name) srt)
+  | HSelect ks q => Some (Select ks q (Some name))
+  | HGetFieldKeys => Some (GetFieldKeys (Some name)) | HGetFieldValues k => Some (GetFieldValues k (Some name))
+  | HGetTagKeys => Some (GetTagKeys (Some name)) | HGetTagValues ks => Some (GetTagValues ks (Some name))
+  | HGetTimestamps => Some (GetTimestamps (Some name))
+  | HInsert ps => Some (Insert ps (Some name)) | HRemove q => Some (Remove q (Some name))
+  | HRemoveAll => Some (DropMeas name)
+  | HUpdate q u => Some (Update q u (Some name))
+  | HUpdateAll u => Some (Update (QNoop AMeas) u (Some name))
+  | HLen | HIter | HAll _ => None
+  end.
+
+
 Definition init (auto : bool) : state := mkState [] (ix_empty_valid true) auto.
 
 Fixpoint run (s : state) (ops : list op) : list out * state :=
